@@ -189,7 +189,7 @@ ATTR_BASE = [
     (None, "</network>"),
     (None, "</gama-local>"),
 ]
-BAD_VALUE = {"badnum": "12x", "text": "abc", "empty": "", "badenum": "zz"}
+BAD_VALUE = {"badnum": "12x", "text": "abc", "empty": "", "badenum": "zz", "huge": "1e999"}
 DOMAIN_VALUE = {"posnum": "-1", "prob": "1.5", "nat": "-1"}
 
 
